@@ -23,7 +23,8 @@ structure LLossy (c : LConfig) : Prop where
   hasEx : c.p.hasEx = true
   exMerge : c.p.exMerge = true
   hasPid : c.p.hasPid = true
-  keep : ∀ m, c.p.keep m = true
+  /-- the forwarder's include filter / the collection's equivalence may drop anything but a REMOVE of the item -/
+  keep : ∀ tag, c.p.keep ⟨c.p.target, .remove, tag⟩ = true
   sub : c.subscribed = true
   causal : c.p.Causal
   /-- at most one queued change of the item -/
@@ -233,38 +234,74 @@ theorem llossy_pipe (c : LConfig) (m' : PMove) (h : LLossy c) : LLossy (lnext c 
           simp only [pstep, hq] at hp
           split at hp
           · rename_i hg
-            simp only [Option.some.injEq, fwRecv, h.keep, if_true] at hp
-            subst hp
-            by_cases hid : x.id = c.p.target
-            · obtain ⟨he, hr, hc0⟩ := hpopT hid
-              refine ⟨h.hasEx, h.exMerge, h.hasPid, h.keep, h.sub, hc, ?_, ?_, ?_⟩
-              · show cnt c.p.target r ≤ 1
-                omega
-              · intro m hm
-                change ent c.p.target r = some m at hm
-                rw [hr] at hm; cases hm
-              · intro hprem
-                change (ent c.p.target r = none ∧ c.present = false ∨ ∃ m, ent c.p.target r = some m ∧ _) at hprem
-                rcases hprem with ⟨_, hgone⟩ | ⟨m, hm, _⟩
-                · have hk : x.kind = .remove := (h.wf x (by rw [hq]; exact he)).mpr hgone
-                  refine Or.inr (Or.inr ⟨hg.2.2.1, x.tag, ?_⟩)
-                  show [x] = _
-                  cases x; simp_all
-                · rw [hr] at hm; cases hm
-            · obtain ⟨he, hcr⟩ := hpopO hid
-              refine ⟨h.hasEx, h.exMerge, h.hasPid, h.keep, h.sub, hc, hcr, ?_, ?_⟩
-              · intro m hm
-                change ent c.p.target r = some m at hm
-                rw [he, ← hq] at hm; exact h.wf m hm
-              · intro hprem
-                change (ent c.p.target r = none ∧ c.present = false ∨ ∃ m, ent c.p.target r = some m ∧ _) at hprem
-                rw [he, ← hq] at hprem
-                have hE := h.w hprem
-                -- the forwarder's hand was empty: the REMOVE cannot have been in it
-                rcases hE with hE | hE | ⟨_, tg, hfq⟩
-                · exact Or.inl hE
-                · exact Or.inr (Or.inl hE)
-                · rw [hg.2.2.2] at hfq; cases hfq
+            simp only [Option.some.injEq, fwRecv] at hp
+            by_cases hkx : c.p.keep x = true
+            · rw [if_pos hkx] at hp
+              subst hp
+              by_cases hid : x.id = c.p.target
+              · obtain ⟨he, hr, hc0⟩ := hpopT hid
+                refine ⟨h.hasEx, h.exMerge, h.hasPid, h.keep, h.sub, hc, ?_, ?_, ?_⟩
+                · show cnt c.p.target r ≤ 1
+                  omega
+                · intro m hm
+                  change ent c.p.target r = some m at hm
+                  rw [hr] at hm; cases hm
+                · intro hprem
+                  change (ent c.p.target r = none ∧ c.present = false ∨ ∃ m, ent c.p.target r = some m ∧ _) at hprem
+                  rcases hprem with ⟨_, hgone⟩ | ⟨m, hm, _⟩
+                  · have hk : x.kind = .remove := (h.wf x (by rw [hq]; exact he)).mpr hgone
+                    refine Or.inr (Or.inr ⟨hg.2.2.1, x.tag, ?_⟩)
+                    show [x] = _
+                    cases x; simp_all
+                  · rw [hr] at hm; cases hm
+              · obtain ⟨he, hcr⟩ := hpopO hid
+                refine ⟨h.hasEx, h.exMerge, h.hasPid, h.keep, h.sub, hc, hcr, ?_, ?_⟩
+                · intro m hm
+                  change ent c.p.target r = some m at hm
+                  rw [he, ← hq] at hm; exact h.wf m hm
+                · intro hprem
+                  change (ent c.p.target r = none ∧ c.present = false ∨ ∃ m, ent c.p.target r = some m ∧ _) at hprem
+                  rw [he, ← hq] at hprem
+                  have hE := h.w hprem
+                  -- the forwarder's hand was empty: the REMOVE cannot have been in it
+                  rcases hE with hE | hE | ⟨_, tg, hfq⟩
+                  · exact Or.inl hE
+                  · exact Or.inr (Or.inl hE)
+                  · rw [hg.2.2.2] at hfq; cases hfq
+            · -- the forwarder's filter / the equivalence drops the change
+              rw [if_neg hkx] at hp
+              subst hp
+              by_cases hid : x.id = c.p.target
+              · obtain ⟨he, hr, hc0⟩ := hpopT hid
+                refine ⟨h.hasEx, h.exMerge, h.hasPid, h.keep, h.sub, hc, ?_, ?_, ?_⟩
+                · show cnt c.p.target r ≤ 1
+                  omega
+                · intro m hm
+                  change ent c.p.target r = some m at hm
+                  rw [hr] at hm; cases hm
+                · intro hprem
+                  change (ent c.p.target r = none ∧ c.present = false ∨ ∃ m, ent c.p.target r = some m ∧ _) at hprem
+                  rcases hprem with ⟨_, hgone⟩ | ⟨m, hm, _⟩
+                  · -- a dropped change of the item is not a REMOVE: the item is not gone
+                    have hk : x.kind = .remove := (h.wf x (by rw [hq]; exact he)).mpr hgone
+                    exfalso
+                    apply hkx
+                    have := h.keep x.tag
+                    cases x; simp_all
+                  · rw [hr] at hm; cases hm
+              · obtain ⟨he, hcr⟩ := hpopO hid
+                refine ⟨h.hasEx, h.exMerge, h.hasPid, h.keep, h.sub, hc, hcr, ?_, ?_⟩
+                · intro m hm
+                  change ent c.p.target r = some m at hm
+                  rw [he, ← hq] at hm; exact h.wf m hm
+                · intro hprem
+                  change (ent c.p.target r = none ∧ c.present = false ∨ ∃ m, ent c.p.target r = some m ∧ _) at hprem
+                  rw [he, ← hq] at hprem
+                  have hE := h.w hprem
+                  rcases hE with hE | hE | ⟨_, tg, hfq⟩
+                  · exact Or.inl hE
+                  · exact Or.inr (Or.inl hE)
+                  · rw [hg.2.2.2] at hfq; cases hfq
           · cases hp
       · by_cases he : m' = .exExit
         · subst he
@@ -279,7 +316,7 @@ theorem llossy_pipe (c : LConfig) (m' : PMove) (h : LLossy c) : LLossy (lnext c 
               exact Or.inr (Or.inl (h.causal.1 hg.2.2))
           · cases hp
         · have hq' : p'.exQ = c.p.exQ := pstep_exQ_same hp (fun x hx' => hnp x hx') hx he
-          refine ⟨s1 ▸ h.hasEx, s5 ▸ h.exMerge, s2 ▸ h.hasPid, fun x => by rw [s4]; exact h.keep x, h.sub, hc, ?_, ?_, ?_⟩
+          refine ⟨s1 ▸ h.hasEx, s5 ▸ h.exMerge, s2 ▸ h.hasPid, fun x => by rw [s4, s3]; exact h.keep x, h.sub, hc, ?_, ?_, ?_⟩
           · show cnt p'.target p'.exQ ≤ 1
             rw [hq', s3]; exact h.uniq
           · show ∀ m, ent p'.target p'.exQ = some m → _
@@ -318,5 +355,21 @@ theorem llossy_init (sync uo : Bool) (target : Nat) (fixed : Bool) : LLossy (lsu
     rcases h with ⟨_, h⟩ | ⟨m, hm, _⟩
     · simp [lsubscribed] at h
     · simp [ent, lsubscribed] at hm
+
+/-- the same with an arbitrary include filter / equivalence in the forwarder -/
+def lsubscribedK (sync uo : Bool) (target : Nat) (fixed : Bool) (keep : Msg → Bool) : LConfig :=
+  { sync := sync, uo := uo, subscribed := true,
+    p := { hasEx := true, exMerge := true, hasPid := true, target := target, fixed := fixed, keep := keep,
+           fwQ := if uo then [] else [⟨target, .add, 0⟩] } }
+
+theorem llossy_initK (sync uo : Bool) (target : Nat) (fixed : Bool) (keep : Msg → Bool)
+    (hk : ∀ tag, keep ⟨target, .remove, tag⟩ = true) : LLossy (lsubscribedK sync uo target fixed keep) := by
+  refine ⟨rfl, rfl, rfl, hk, rfl, ?_, by simp [cnt, lsubscribedK], ?_, ?_⟩
+  · simp [PConfig.Causal, lsubscribedK]
+  · intro m hm; simp [ent, lsubscribedK] at hm
+  · intro h
+    rcases h with ⟨_, h⟩ | ⟨m, hm, _⟩
+    · simp [lsubscribedK] at h
+    · simp [ent, lsubscribedK] at hm
 
 end ScVerif.C10
